@@ -5,6 +5,7 @@ package bridge
 
 import (
 	"bytes"
+	"errors"
 	"fmt"
 	"sort"
 
@@ -107,11 +108,21 @@ func Reflect(gen any) protoreflect.Message {
 }
 
 // UnmarshalRef parses b into a dynamic message of md with the reference runtime.
-func (p *Pkg) UnmarshalRef(md protoreflect.MessageDescriptor, b []byte, allowPartial bool) (*dynamicpb.Message, error) {
-	d := dynamicpb.NewMessage(md)
-	err := proto.UnmarshalOptions{AllowPartial: allowPartial, Resolver: p.extTypes}.Unmarshal(b, d)
+func (p *Pkg) UnmarshalRef(md protoreflect.MessageDescriptor, b []byte, allowPartial bool) (d *dynamicpb.Message, err error) {
+	defer func() {
+		// protobuf-go 1.36.4 itself panics on a few malformed inputs (e.g. a dynamic map entry without key
+		// for some key kinds); such an input has no reference verdict
+		if r := recover(); r != nil {
+			err = fmt.Errorf("%w: %v", ErrReferencePanic, r)
+		}
+	}()
+	d = dynamicpb.NewMessage(md)
+	err = proto.UnmarshalOptions{AllowPartial: allowPartial, Resolver: p.extTypes}.Unmarshal(b, d)
 	return d, err
 }
+
+// ErrReferencePanic marks inputs on which the reference runtime panicked.
+var ErrReferencePanic = errors.New("reference runtime panicked")
 
 // MarshalRef is the reference deterministic encoding of a dynamic message.
 func MarshalRef(d proto.Message) ([]byte, error) {
